@@ -45,6 +45,8 @@ def run_keys_check(pid, tier, seed, wd):
     groups = []
     for flav in ("sync", "async"):
         for sig, pl in D.items():
+            if sig == "m_u_u_u" and flav == "async":
+                continue        # a primitive receiver needs a trait impl: sync only
             groups.append((sig, flav, pl + R.get(sig, []), True))
         groups.append(("f_f", flav, R["f_f"], False))
     sp = os.path.join(wd, "keys.jsonl")
